@@ -7,3 +7,4 @@ EXPLANATION = ("Amplitude stage proved symbolically (vt/contracts/amp_sym.py): t
 ASSUMPTIONS = []
 
 from vt.contracts import amp_sym, iface_amp, iface_c04_frames  # noqa: F401,E402
+from vt.contracts import align_sym  # noqa: F401,E402  (cal_chain_boost: rest-frame momenta nested along the path, incl. a moving parent)
